@@ -103,7 +103,15 @@ Section Data.
   Definition path_ok (c : str) (inv : bool) (p : str) : bool :=
     str_eqb p tau || (kinds_homog (nl_nbrs c inv p) && typed_homog (nl_nbrs c inv p)).
 
+  (** blank-node identifiers start with "_:", IRI identifiers do not (so the identifier string
+      identifies the node, as in every yielder-produced graph) *)
+  Definition markedb (n : node) : bool :=
+    Bool.eqb (nkind_eqb (nk n) KBnode) (prefixb (Str "_:") (nid n)).
+
   Definition strict_domb : bool :=
+    forallb (fun t => markedb (ts t) && match to t with ON o => markedb o | OL _ _ => true end) G &&
+    forallb (fun c1 => forallb (fun c2 => negb (str_eqb (shape_name sns c1) (shape_name sns c2)) || str_eqb c1 c2)
+                               classes_in) classes_in &&
     nodupb G &&
     forallb (fun t => match to t with
                       | OL _ dt => negb (is_nonliteral_type dt) && negb (str_eqb dt c_NONLITERAL_ELEM_TYPE)
